@@ -257,7 +257,13 @@ CGEN_FUNCTIONS = ["constmap.c:hash:C_cm_hash", "cdb_hash.c:cdb_hash", "cdb_unpac
                   "byte_copy.c:byte_copy", "byte_cr.c:byte_copyr", "byte_zero.c:byte_zero", "str_chr.c:str_chr", "str_rchr.c:str_rchr",
                   "str_start.c:str_start", "case_lowerb.c:case_lowerb", "case_diffs.c:case_diffs", "case_starts.c:case_starts",
                   "scan_ulong.c:scan_ulong", "scan_8long.c:scan_8long", "fmt_ulong.c:fmt_ulong", "fmt_uint.c:fmt_uint",
-                  "fmt_uint0.c:fmt_uint0", "fmt_str.c:fmt_str", "qmail-send.c:squareroot"]
+                  "fmt_uint0.c:fmt_uint0", "fmt_str.c:fmt_str", "qmail-send.c:squareroot",
+                  "ip.c:ip_scan", "ip.c:ip_scanbracket", "ip.c:ip_fmt", "quote.c:doit:C_quote_doit",
+                  # the same code with every array access checked (field v__oob): memory-safety statements are about these
+                  "scan_ulong.c:scan_ulong:K_scan_ulong:chk", "ip.c:ip_scan:K_ip_scan:chk", "ip.c:ip_scanbracket:K_ip_scanbracket:chk",
+                  "quote.c:doit:K_quote_doit:chk", "byte_chr.c:byte_chr:K_byte_chr:chk", "str_chr.c:str_chr:K_str_chr:chk",
+                  "case_diffb.c:case_diffb:K_case_diffb:chk", "fmt_ulong.c:fmt_ulong:K_fmt_ulong:chk", "fmt_str.c:fmt_str:K_fmt_str:chk",
+                  "byte_copy.c:byte_copy:K_byte_copy:chk", "cdb_unpack.c:cdb_unpack:K_cdb_unpack:chk", "constmap.c:hash:K_cm_hash:chk"]
 
 def gen_params(srcdir):
     r = run([sys.executable, os.path.join(VERIF, "tools", "extract_params.py"), srcdir])
